@@ -24,7 +24,8 @@ RULE = (
     "three-valued answer; stmt: generated criteria trees (depth <=4) and SET clauses over 0-8 loaded objects (some expired) x UPDATE/DELETE x "
     "synchronize_session in {evaluate, fetch, auto}. Non-trivial: criterion has NOT over a NULL-able subexpression, % or / with a negative/zero "
     "operand, IN/NOT IN with NULL, a LIKE-family operator with %/_, or the composite-key family (a third of stmt cases: table PRIMARY KEY (id, k), mapper "
-    "primary_key=[k, id], rows with mirrored key pairs); distinct = canonical JSON"
+    "primary_key=[k, id], rows with mirrored key pairs), or an unflushed in-memory change (Session(autoflush=False)) on an attribute the UPDATE assigns and no "
+    "expression of the statement reads (matched rows must then show the database value, unmatched rows keep their pending change); distinct = canonical JSON"
 )
 ASSUMPTIONS = [
     "live SQLite only; UPDATE..RETURNING is available so 'fetch' uses RETURNING, and is also run with RETURNING disabled on the dialect (pre-select path)",
@@ -153,6 +154,25 @@ def _features(node, acc, under_not=False):
         acc.add(k)
         if under_not:
             acc.add("not-over-nullable")
+
+
+def _refcols(node, acc):
+    """attribute names a criterion / SET expression tree reads"""
+    if not isinstance(node, list) or not node:
+        return
+    k = node[0]
+    if k == "col":
+        acc.add(node[1])
+    elif k in ("startswith", "endswith", "contains", "like", "concat_eq", "concat"):
+        acc.add("s")
+    elif k == "between":
+        acc.add("x")
+    for n in node[1:]:
+        if isinstance(n, list):
+            _refcols(n, acc)
+            for m in n:
+                if isinstance(m, list):
+                    _refcols(m, acc)
 
 
 def _has_wildcard_known(node):
@@ -343,6 +363,8 @@ def _stmts(draw):
         "crit": draw(_crit),
         "set": [list(x) for x in draw(st.lists(_setclause, min_size=1, max_size=2, unique_by=lambda t: t[0]))],
         "composite": draw(st.sampled_from([0, 0, 1])),
+        # unflushed in-memory changes (Session(autoflush=False)) on attributes that the UPDATE assigns: [object index, attribute, value index]
+        "dirty": [list(t) for t in draw(st.one_of(st.just([]), st.just([]), st.lists(st.tuples(st.integers(0, 7), st.sampled_from(["x", "y", "s"]), st.integers(0, 4)), min_size=1, max_size=3)))],
     }
 
 
@@ -380,7 +402,15 @@ def check_stmt(case, ctx):
         eng.dialect.delete_returning = False
     _family()["Base"].metadata.create_all(eng)
     cap = Capture(eng)
-    sess = Session(eng)
+    read = set()
+    _refcols(case["crit"], read)
+    for _k, _v in case.get("set", []):
+        _refcols(_v, read)
+    set_keys = {k for k, _v in case.get("set", [])} if case["kind"] == "update" else set()
+    # a pending change is applied only where no expression of the statement reads the attribute: otherwise in-memory evaluation and the
+    # database legitimately disagree (autoflush was turned off by the application)
+    dirty = [d for d in case.get("dirty", []) if d[1] in set_keys and d[1] not in read]
+    sess = Session(eng, autoflush=not dirty)
     try:
         n_rows = len(case["rows"])
         for i, (x, y, s) in enumerate(case["rows"]):
@@ -405,7 +435,26 @@ def check_stmt(case, ctx):
                 sess.expire(objs[i % len(objs)], [attr])
         expired_ids = {ids[i % len(objs)] for i in case["expired"]} if objs else set()
         expired_ids |= {ids[i % len(objs)] for i, _a in partial} if objs else set()
+        pending = {}  # object id -> attributes carrying an unflushed change
+        for i, attr, vi in dirty:
+            if not objs:
+                break
+            o = objs[i % len(objs)]
+            if o.id in expired_ids:
+                continue
+            pool = SS if attr == "s" else XS
+            setattr(o, attr, pool[vi % len(pool)])
+            if attr in inspect(o).committed_state:
+                pending.setdefault(o.id, set()).add(attr)
+        if pending:
+            feats.add("pending-change-on-assigned-attribute")
+            ctx.note(case, True, classes=["pending-change-on-assigned-attribute"])
         crit = _build(case["crit"], T)
+        matched_ids = None
+        if pending:
+            from sqlalchemy import select
+
+            matched_ids = {r[0] for r in sess.connection().execute(select(T.__table__.c.id).where(crit))}
         if case["kind"] == "update":
             stmt = update(T).where(crit).values({k: _build_set(v, T) for k, v in case["set"]})
         else:
@@ -459,7 +508,12 @@ def check_stmt(case, ctx):
                                 observed="not persistent", expected="persistent")
             row = db[oid]
             loaded = st_.dict
+            # an unflushed change on a row the UPDATE did not match legitimately stays pending; on a matched row the assigned attribute
+            # must now show (or load) what the database holds
+            skip = pending.get(oid, set()) if (matched_ids is not None and oid not in matched_ids) else set()
             for idx, attr in ((1, "x"), (2, "y"), (3, "s")):
+                if attr in skip:
+                    continue
                 if attr in loaded and loaded[attr] != row[idx]:
                     sig = _sync_sig(case, "stale-attribute")
                     raise Violation(sig, f"object {oid}.{attr} = {loaded[attr]!r} in memory but DB has {row[idx]!r} after {case['kind']} "
@@ -467,6 +521,8 @@ def check_stmt(case, ctx):
                                     observed=repr(loaded[attr]), expected=repr(row[idx]))
             # expired / unloaded attributes must load the DB value
             for idx, attr in ((1, "x"), (2, "y"), (3, "s")):
+                if attr in skip:
+                    continue
                 if getattr(o, attr) != row[idx]:
                     raise Violation(_sync_sig(case, "reload-mismatch"), f"object {oid}.{attr} loads {getattr(o, attr)!r}, DB has {row[idx]!r}")
     finally:
